@@ -509,7 +509,15 @@ impl<'a> Cmp<'a> {
                                 if self.m.find(&inner).is_none() {
                                     self.d(format!("{}|kind={cname}|ctx={ctx}|group-struct-missing", self.prefix), format!("group struct `{inner}` not found"));
                                 } else {
-                                    // the group struct is an ordinary struct of its members (never itself extensible unless IMPLIED)
+                                    // the group struct is an ordinary struct of its members.  A version group is not a type notation:
+                                    // EXTENSIBILITY IMPLIED does not make it extensible (it would put an extension bit inside the group)
+                                    if self.check_ext {
+                                        if let Some(Item::Struct { attrs, .. }) = self.m.find(&inner) {
+                                            if attrs.non_exhaustive {
+                                                self.d(format!("{}|kind={cname}|ctx={ctx}|group-struct-extensible|implied={}", self.prefix, self.implied), format!("group struct `{inner}` is #[non_exhaustive]"));
+                                            }
+                                        }
+                                    }
                                     let saved = self.check_ext;
                                     self.check_ext = false;
                                     self.visited.insert(inner.clone());
